@@ -157,6 +157,57 @@ def check(rep, tier):
                 problems.append(("gensym-clash", "numbered helper identifier defined twice in %s" % f, sorted(names)))
         cov["functions_with_duplicate_helper_identifiers"] = dup
         cov["files"] = len(files)
+        # correspondence with the gensym model (coq/Gensym.v): the numbered identifiers of a file are exactly
+        # the names the model produces for as many calls (the model is evaluated inside Coq)
+        per_file = {}
+        for f in files:
+            text = open(os.path.join(w, "o0", f)).read()
+            per_file[f] = sorted(set(int(x) for x in re.findall(r"ɪʇ(\d+)\s*:=", text)))
+        counts = sorted(set(len(v) for v in per_file.values()))
+        model = {}
+        if counts and os.path.exists(os.path.join(C.COQ, "Gensym.v")):
+            ev = C.workdir("gensym")
+            try:
+                txt = ("From Coq Require Import List.\nFrom Verif Require Import Gensym.\nImport ListNotations.\n"
+                       "Definition G := Eval vm_compute in map (fun n => map (fun l => skipn 4 l) (gensyms [201; 170; 202; 135] 0 n)) %s.\nPrint G.\n"
+                       % ("[" + "; ".join(str(c) for c in counts) + "]"))
+                rc, out = C.coq_eval(ev, "gensym_cases", txt)
+                if rc != 0:
+                    raise RuntimeError("coqc failed on gensym cases: " + out[-2000:])
+                body = re.search(r"G\s*=\s*(.*?)\s*:\s*list", out, re.S).group(1)
+                groups = re.findall(r"\[((?:\s*\[[^\[\]]*\]\s*;?)*)\]", body)
+                # parse nested lists: one group per count
+                parsed = []
+                depth, cur, tok = 0, None, ""
+                lists = []
+                for ch in body:
+                    if ch == "[":
+                        depth += 1
+                        if depth == 2:
+                            cur = []
+                        elif depth == 3:
+                            tok = ""
+                    elif ch == "]":
+                        if depth == 3:
+                            digs = [int(x) for x in re.findall(r"\d+", tok)]
+                            cur.append(int("".join(chr(d) for d in digs)) if digs else -1)
+                        elif depth == 2:
+                            lists.append(cur)
+                        depth -= 1
+                    elif depth == 3:
+                        tok += ch
+                if len(lists) != len(counts):
+                    raise RuntimeError("gensym model evaluation returned %d lists for %d counts" % (len(lists), len(counts)))
+                model = dict(zip(counts, lists))
+            finally:
+                C.rmtree(ev)
+            bad = [(f, v, model[len(v)]) for f, v in per_file.items() if sorted(model[len(v)]) != v]
+            cov["gensym_model_files_compared"] = len(per_file)
+            cov["gensym_model_max_identifiers_in_a_file"] = max(counts)
+            cov["gensym_model_mismatches"] = len(bad)
+            if bad:
+                problems.append(("gensym-model", "numbered helper identifiers of %s differ from the names of the gensym model (coq/Gensym.v); "
+                                 "theorem C15_helper_identifiers_unique_partial no longer speaks about this code" % bad[0][0], {"found": bad[0][1], "model": bad[0][2]}))
         # everything must still build
         rc, o, e = C.run(["go", "build", "./o0/..."], cwd=w, timeout=900)
         if rc != 0:
@@ -172,12 +223,18 @@ def check(rep, tier):
         "rule": "real rewriter.Compile on generated packages (ranges incl. sequential and nested, yielding loops, delegation, optimiser corpus): "
                 "3 identical runs; every sampled file alone / with siblings / with another package / with siblings renamed so that the processing "
                 "order changes; a run over a destination that holds longer stale outputs and a stale <dst>_tmp; byte comparison of the generated files; "
-                "helper identifiers per function; hook output == Compile output",
+                "helper identifiers per function, compared with the gensym model evaluated inside Coq; hook output == Compile output",
         "samples": [{"problems": [p[:2] for p in problems[:3]]}],
     })
     if problems:
+        # a concrete failing input first; a broken model correspondence alone is reported as such
+        problems.sort(key=lambda p: p[0] == "gensym-model")
         kind, what, detail = problems[0]
-        rep.violation(rep.write_replay(kind.replace("-", "_"), {"what": what, "detail": detail, "all_problems": [p[:2] for p in problems]}))
+        path = rep.write_replay(kind.replace("-", "_"), {"what": what, "detail": detail, "all_problems": [p[:2] for p in problems]})
+        if kind == "gensym-model":
+            rep.violation(path, "no-failing-input-found")
+        else:
+            rep.violation(path)
     rep.assumptions = ["run-to-run determinism is sampled (3 runs), not proved: map iteration order and the package loader are outside the model"]
 
 
